@@ -569,6 +569,108 @@ Section Deps.
       split; [reflexivity|]. split; [|congruence]. rewrite <- app_assoc in I2. exact I2.
   Qed.
 
+  (* ---- run-time switch of apply_force ------------------------------------------------------------------- *)
+  Definition set_apply_self (id : nat) (on : bool) (b : bias) : bias :=
+    if Nat.eqb (b_id b) id then
+      (if on then (if b_apply b then b else set_bapply b true)
+       else (if negb (b_apply b) then b else set_bapply b false))
+    else b.
+
+  Definition TRA (b b' : bias) (vs vs' : list var) : Prop :=
+    length vs' = length vs /\
+    forall R A, (forall i, 0 <= R i) -> (forall i, 0 <= A i) ->
+      VInvS (fun i => R i + c_act b i) (fun i => A i + c_app b i) vs ->
+      VInvS (fun i => R i + c_act b' i) (fun i => A i + c_app b' i) vs'.
+
+  Lemma TRA_in_context pre b b' post vs vs' :
+    TRA b b' vs vs' -> VInv (pre ++ b :: post) vs -> VInv (pre ++ b' :: post) vs'.
+  Proof.
+    intros [L1 H1] H. unfold VInv in *.
+    eapply VInvS_ext; [| |apply (H1 (fun i => refs pre i + refs post i) (fun i => arefs pre i + arefs post i))].
+    - intros i; rewrite ?refs_app, ?arefs_app; cbn [refs arefs]; lia.
+    - intros i; rewrite ?refs_app, ?arefs_app; cbn [refs arefs]; lia.
+    - intros i. pose proof (refs_nonneg pre i). pose proof (refs_nonneg post i). lia.
+    - intros i. pose proof (arefs_nonneg pre i). pose proof (arefs_nonneg post i). lia.
+    - eapply VInvS_ext; [| |exact H]; intros i; rewrite ?refs_app, ?arefs_app; cbn [refs arefs]; lia.
+  Qed.
+
+  Lemma c_set_bapply b a i :
+    c_act (set_bapply b a) i = c_act b i /\
+    c_app (set_bapply b a) i = if b_active b && a then Z.of_nat (cnt (b_vars b) i) else 0.
+  Proof. unfold c_act, c_app. destruct b; cbn. auto. Qed.
+
+  Lemma enable_apply_TRA b vs :
+    fst (bias_enable_apply b vs) = (if b_apply b then b else set_bapply b true) /\
+    TRA b (fst (bias_enable_apply b vs)) vs (snd (bias_enable_apply b vs)).
+  Proof.
+    unfold bias_enable_apply. destruct (b_apply b) eqn:Ea; cbn [fst snd]; (split; [reflexivity|]).
+    - split; [reflexivity|]. intros R A HR HA H. exact H.
+    - split; [destruct (b_active b); [apply on_children_length | reflexivity]|].
+      intros R A HR HA H i v Hi.
+      destruct (c_set_bapply b true i) as [C1 C2]. rewrite C1, C2.
+      assert (C0 : c_app b i = 0) by (unfold c_app; rewrite Ea, andb_false_r; reflexivity).
+      destruct (b_active b) eqn:Eact; cbn [andb].
+      + rewrite on_children_nth in Hi. destruct (nth_error vs i) as [v0|] eqn:E0; [|discriminate].
+        cbn in Hi. inversion Hi; subst v. apply VI_iter_ref_apply; [apply HA|].
+        specialize (H i v0 E0). cbn beta in H. rewrite C0 in H. replace (A i + 0) with (A i) in H by lia. exact H.
+      + specialize (H i v Hi). cbn beta in H. rewrite C0 in H. exact H.
+  Qed.
+
+  Lemma disable_apply_TRA b vs :
+    fst (fst (bias_disable_apply b vs)) = (if negb (b_apply b) then b else set_bapply b false) /\
+    TRA b (fst (fst (bias_disable_apply b vs))) vs (snd (fst (bias_disable_apply b vs))).
+  Proof.
+    unfold bias_disable_apply. destruct (b_apply b) eqn:Ea; cbn [negb].
+    2:{ cbn [fst snd]. split; [reflexivity|]. split; [reflexivity|]. intros R A HR HA H. exact H. }
+    destruct (b_active b) eqn:Eact.
+    - pose proof (on_children_e_length var_decr_apply (b_vars b) vs) as L.
+      pose proof (on_children_e_nth var_decr_apply (b_vars b) vs) as N.
+      destruct (on_children_e var_decr_apply (b_vars b) vs) as [vs1 e]. cbn [fst snd] in *.
+      split; [reflexivity|]. split; [exact L|].
+      intros R A HR HA H i v Hi. rewrite N in Hi.
+      destruct (nth_error vs i) as [v0|] eqn:E0; [|discriminate]. cbn in Hi. inversion Hi; subst v.
+      destruct (c_set_bapply b false i) as [C1 C2]. rewrite C1, C2, andb_false_r.
+      replace (A i + 0) with (A i) by lia.
+      apply VI_iter_decr_apply; [apply HA|].
+      specialize (H i v0 E0). cbn beta in H. unfold c_app in H. rewrite Eact, Ea in H. exact H.
+    - cbn [fst snd]. split; [reflexivity|]. split; [reflexivity|].
+      intros R A HR HA H i v Hi. destruct (c_set_bapply b false i) as [C1 C2]. rewrite C1, C2, andb_false_r.
+      specialize (H i v Hi). cbn beta in H. unfold c_app in H. rewrite Eact in H. exact H.
+  Qed.
+
+  Lemma set_apply_spec id on r : forall pre vs,
+    VInv (pre ++ r) vs ->
+    fst (fst (set_apply id on r vs)) = map (set_apply_self id on) r /\
+    VInv (pre ++ map (set_apply_self id on) r) (snd (fst (set_apply id on r vs))) /\
+    length (snd (fst (set_apply id on r vs))) = length vs.
+  Proof.
+    induction r as [|b r IH]; intros pre vs H.
+    - cbn. auto.
+    - cbn [set_apply map].
+      assert (F : exists b1 vs1 e1,
+                 (if Nat.eqb (b_id b) id then
+                    if on then let '(b1, v1) := bias_enable_apply b vs in (b1, v1, false)
+                    else bias_disable_apply b vs
+                  else (b, vs, false)) = (b1, vs1, e1) /\ b1 = set_apply_self id on b /\
+                 VInv (pre ++ b1 :: r) vs1 /\ length vs1 = length vs).
+      { unfold set_apply_self. destruct (Nat.eqb (b_id b) id).
+        - destruct on.
+          + destruct (enable_apply_TRA b vs) as [F1 F2].
+            destruct (bias_enable_apply b vs) as [b1 vs1]. cbn [fst snd] in *. subst b1.
+            do 3 eexists. split; [reflexivity|]. split; [reflexivity|].
+            split; [apply (TRA_in_context pre b _ r vs vs1 F2 H) | apply F2].
+          + destruct (disable_apply_TRA b vs) as [F1 F2].
+            destruct (bias_disable_apply b vs) as [[b1 vs1] e1]. cbn [fst snd] in *. subst b1.
+            do 3 eexists. split; [reflexivity|]. split; [reflexivity|].
+            split; [apply (TRA_in_context pre b _ r vs vs1 F2 H) | apply F2].
+        - do 3 eexists. split; [reflexivity|]. split; [reflexivity|]. split; [exact H | reflexivity]. }
+      destruct F as (b1 & vs1 & e1 & -> & -> & G & L1).
+      specialize (IH (pre ++ [set_apply_self id on b]) vs1). rewrite <- app_assoc in IH. cbn [app] in IH.
+      destruct (IH G) as [I1 [I2 I3]].
+      destruct (set_apply id on r vs1) as [[r' vs2] e2]. cbn [fst snd] in *. subst r'.
+      split; [reflexivity|]. split; [|congruence]. rewrite <- app_assoc in I2. exact I2.
+  Qed.
+
   (* ---- the variables' own schedule and calc() --------------------------------------------------- *)
   Lemma VI_enable_awake r a v : 0 <= r -> VI r a v -> VI r a (var_enable_awake v).
   Proof.
@@ -1440,6 +1542,7 @@ Section Real.
     | ERepeat xs =>
       let bs' := map (bias_step it nv xs) bs in ((it, false, bs'), [(it, bs', xs)])
     | ESetActive id on => ((it, first, map (set_active_self id on) bs), [])
+    | ESetApply id on => ((it, first, map (set_apply_self id on) bs), [])
     end.
 
   Fixpoint btrace (nv : nat) (s : bst) (evs : list (@event R)) : list sout :=
@@ -1479,7 +1582,7 @@ Section Real.
   Proof.
     induction evs as [|ev r IH]; intros m H; [constructor|].
     cbn [run btrace].
-    destruct ev as [xs|xs|id on]; cbn [mstep bstep].
+    destruct ev as [xs|xs|id on|id on]; cbn [mstep bstep].
     - pose proof (do_calc_closed m (if m_first m then m_it m else (m_it m + 1)%Z) xs H) as D. cbn zeta in D.
       destruct (do_calc Rops fixed efix m (if m_first m then m_it m else (m_it m + 1)%Z) xs) as [m' o].
       cbn [fst snd] in D. destruct D as (D1 & D2 & D3 & D4 & D5 & D6).
@@ -1494,6 +1597,11 @@ Section Real.
       destruct (set_active id on (m_biases m) (m_vars m)) as [[bs vs] e]. cbn [fst snd app] in *. subst bs.
       cbn [app].
       specialize (IH (mkM (m_it m) (m_first m) vs (map (set_active_self id on) (m_biases m))) S2).
+      cbn [m_vars m_it m_first m_biases] in IH. rewrite S3 in IH. exact IH.
+    - destruct (set_apply_spec id on (m_biases m) [] (m_vars m) H) as (S1 & S2 & S3).
+      destruct (set_apply id on (m_biases m) (m_vars m)) as [[bs vs] e]. cbn [fst snd app] in *. subst bs.
+      cbn [app].
+      specialize (IH (mkM (m_it m) (m_first m) vs (map (set_apply_self id on) (m_biases m))) S2).
       cbn [m_vars m_it m_first m_biases] in IH. rewrite S3 in IH. exact IH.
   Qed.
 
@@ -1543,7 +1651,7 @@ Section Real.
     fixed = true -> StInv m -> Forall var_sched_out (run Rops fixed efix m evs).
   Proof.
     induction evs as [|ev r IH]; intros m Hf H; [constructor|].
-    cbn [run]. destruct ev as [xs|xs|id on]; cbn [mstep].
+    cbn [run]. destruct ev as [xs|xs|id on|id on]; cbn [mstep].
     - pose proof (do_calc_sched m (if m_first m then m_it m else (m_it m + 1)%Z) xs Hf H) as S.
       pose proof (do_calc_closed m (if m_first m then m_it m else (m_it m + 1)%Z) xs H) as D. cbn zeta in D.
       destruct (do_calc Rops fixed efix m (if m_first m then m_it m else (m_it m + 1)%Z) xs) as [m' o].
@@ -1554,6 +1662,9 @@ Section Real.
       cbn [fst snd] in *. destruct D as (D1 & _). apply Forall_app. split; [exact S | apply IH; assumption].
     - destruct (set_active_spec id on (m_biases m) [] (m_vars m) H) as (S1 & S2 & S3).
       destruct (set_active id on (m_biases m) (m_vars m)) as [[bs vs] e]. cbn [fst snd app] in *. subst bs.
+      cbn [app]. apply IH; [exact Hf | exact S2].
+    - destruct (set_apply_spec id on (m_biases m) [] (m_vars m) H) as (S1 & S2 & S3).
+      destruct (set_apply id on (m_biases m) (m_vars m)) as [[bs vs] e]. cbn [fst snd app] in *. subst bs.
       cbn [app]. apply IH; [exact Hf | exact S2].
   Qed.
 
@@ -1578,7 +1689,7 @@ Section Real.
       destruct (calc Rops fixed efix it (m_vars m) (m_biases m) xs) as [[[vs bs] e] en].
       cbn [fst snd] in *. destruct C as (C1 & _ & _ & _ & _ & _ & C7).
       constructor; [|constructor]. unfold fb_routing_out. cbn [o_vars o_biases]. rewrite C1. exact C7. }
-    cbn [run]. destruct ev as [xs|xs|id on]; cbn [mstep].
+    cbn [run]. destruct ev as [xs|xs|id on|id on]; cbn [mstep].
     - destruct (D (if m_first m then m_it m else (m_it m + 1)%Z) xs) as [D1 D2].
       destruct (do_calc Rops fixed efix m (if m_first m then m_it m else (m_it m + 1)%Z) xs) as [m' o].
       cbn [fst snd] in *. apply Forall_app. split; [exact D1 | apply IH; exact D2].
@@ -1587,6 +1698,9 @@ Section Real.
       cbn [fst snd] in *. apply Forall_app. split; [exact D1 | apply IH; exact D2].
     - destruct (set_active_spec id on (m_biases m) [] (m_vars m) H) as (S1 & S2 & S3).
       destruct (set_active id on (m_biases m) (m_vars m)) as [[bs vs] e]. cbn [fst snd app] in *. subst bs.
+      cbn [app]. apply IH. exact S2.
+    - destruct (set_apply_spec id on (m_biases m) [] (m_vars m) H) as (S1 & S2 & S3).
+      destruct (set_apply id on (m_biases m) (m_vars m)) as [[bs vs] e]. cbn [fst snd app] in *. subst bs.
       cbn [app]. apply IH. exact S2.
   Qed.
 
@@ -1642,7 +1756,8 @@ Section Real.
     btrace nv (it, first, select m bs) evs = map (sel_out m) (btrace nv (it, first, bs) evs).
   Proof.
     induction evs as [|ev r IH]; intros it first bs; [reflexivity|].
-    cbn [btrace]. destruct ev as [xs|xs|id on]; cbn [bstep app map sel_out].
+    cbn [btrace]. destruct ev as [xs|xs|id on|id on]; cbn [bstep app map sel_out].
+    - rewrite <- select_map, IH. reflexivity.
     - rewrite <- select_map, IH. reflexivity.
     - rewrite <- select_map, IH. reflexivity.
     - rewrite <- select_map, IH. reflexivity.
@@ -1652,11 +1767,12 @@ Section Real.
     Forall (fun t : sout => length (snd (fst t)) = length bs) (btrace nv (it, first, bs) evs).
   Proof.
     induction evs as [|ev r IH]; intros it first bs; [constructor|].
-    cbn [btrace]. destruct ev as [xs|xs|id on]; cbn [bstep app].
+    cbn [btrace]. destruct ev as [xs|xs|id on|id on]; cbn [bstep app].
     - constructor; [cbn; apply map_length|].
       eapply Forall_impl; [|apply IH]. intros t Ht. rewrite Ht. apply map_length.
     - constructor; [cbn; apply map_length|].
       eapply Forall_impl; [|apply IH]. intros t Ht. rewrite Ht. apply map_length.
+    - eapply Forall_impl; [|apply IH]. intros t Ht. rewrite Ht. apply map_length.
     - eapply Forall_impl; [|apply IH]. intros t Ht. rewrite Ht. apply map_length.
   Qed.
 
@@ -1973,7 +2089,7 @@ Section Real.
   Proof.
     intros Hf. induction evs as [|ev r IH]; intros it first bs Hu H; [constructor|].
     assert (Hu' : untouched Tid r) by (intros id on Hin; apply (Hu id on); right; exact Hin).
-    cbn [btrace]. destruct ev as [xs|xs|id on]; cbn [bstep app].
+    cbn [btrace]. destruct ev as [xs|xs|id on|id on]; cbn [bstep app].
     - destruct (bias_step_sched Tid (if first then it else (it + 1)%Z) nv xs bs Hf H) as [G1 G2].
       constructor; [exact G2 | apply IH; assumption].
     - destruct (bias_step_sched Tid it nv xs bs Hf H) as [G1 G2].
@@ -1988,6 +2104,13 @@ Section Real.
             repeat match type of Hid with context [if ?c then _ else _] => destruct c; cbn in Hid end; subst; exact Hid. }
         apply (Hu id on (or_introl eq_refl) Hid').
       + apply H; assumption.
+    - apply IH; [exact Hu'|].
+      intros b' Hb' Hid Ht. apply in_map_iff in Hb'. destruct Hb' as (b & <- & Hb).
+      assert (G : b_id (set_apply_self id on b) = b_id b /\ b_tsf (set_apply_self id on b) = b_tsf b /\
+                  (FS b -> FS (set_apply_self id on b))).
+      { unfold set_apply_self, FS, S0, SA, SS. destruct b as [id0 tsf vars byp app upd st act rc aw e fs sc fac]. cbn.
+        destruct (Nat.eqb id0 id); destruct on; destruct app; cbn; auto. }
+      destruct G as (G1 & G2 & G3). rewrite G1 in Hid. rewrite G2 in Ht. apply G3. apply H; assumption.
   Qed.
 
   Lemma init_bias_FS (c : @bias_cfg R BS) : FS (init_bias Rops c).
@@ -2019,6 +2142,7 @@ Section Real.
     | EStep _ :: r => off :: disabled_at off r
     | ERepeat _ :: r => off :: disabled_at off r
     | ESetActive id on :: r => disabled_at (fun j => if Nat.eqb j id then negb on else off j) r
+    | ESetApply _ _ :: r => disabled_at off r
     end.
 
   Definition DInv (off : nat -> bool) (b : bias) : Prop :=
@@ -2055,7 +2179,7 @@ Section Real.
             (btrace nv (it, first, bs) evs) (disabled_at off evs).
   Proof.
     induction evs as [|ev r IH]; intros off it first bs H; [constructor|].
-    cbn [btrace disabled_at]. destruct ev as [xs|xs|id on]; cbn [bstep app].
+    cbn [btrace disabled_at]. destruct ev as [xs|xs|id on|id on]; cbn [bstep app].
     - assert (H' : forall b, In b (map (bias_step (if first then it else (it + 1)%Z) nv xs) bs) -> DInv off b).
       { intros b' Hb'. apply in_map_iff in Hb'. destruct Hb' as (b & <- & Hb). apply bias_step_DInv, H, Hb. }
       constructor; [|apply IH; exact H'].
@@ -2066,6 +2190,10 @@ Section Real.
       cbn [fst snd]. intros b Hb Ht Ho. apply (H' b Hb Ht), Ho.
     - apply IH. intros b' Hb'. apply in_map_iff in Hb'. destruct Hb' as (b & <- & Hb).
       apply set_active_self_DInv, H, Hb.
+    - apply IH. intros b' Hb'. apply in_map_iff in Hb'. destruct Hb' as (b & <- & Hb).
+      specialize (H b Hb). unfold DInv, set_apply_self in *.
+      destruct b as [id0 tsf vars byp app upd st act rc aw e fs sc fac]. cbn in *.
+      destruct (Nat.eqb id0 id); destruct on; destruct app; cbn; exact H.
   Qed.
 
   Theorem disabled_stays_off it0 tsfs (cfgs : list (@bias_cfg R BS)) evs :
@@ -2540,6 +2668,12 @@ Section Witness.
                  [EStep (wx 1); EStep (wx 1); EStep (wx 7)])
     = [(0, [true], [true], 0, -6); (1, [false], [false], 0, 0); (2, [true], [true], 0, -14)]%Z.
   Proof. vm_compute. reflexivity. Qed.
+  (* apply_force switched off by script for one step and on again: no force while it is off, reference counts follow *)
+  Lemma witness_apply_switch :
+    map wview (run_kinds Zops true true 0 [1%Z] [wharm 1]
+                 [EStep (wx 1); ESetApply 0 false; EStep (wx 2); ESetApply 0 true; EStep (wx 3)])
+    = [(0, [true], [true], 0, -1); (1, [true], [true], 0, 0); (2, [true], [true], 0, -3)]%Z.
+  Proof. vm_compute. reflexivity. Qed.
 End Witness.
 
 Lemma impulse_premises_sat :
@@ -2553,15 +2687,16 @@ Section NoError.
   Variables fixed efix : bool.
 
   Definition no_script (evs : list (@event T)) : Prop :=
-    forall id on, ~ In (ESetActive id on) evs.
+    forall id on, ~ In (ESetActive id on) evs /\ ~ In (ESetApply id on) evs.
 
   Lemma run_noerr evs : forall (m : @mstate T BS),
     no_script evs -> VInv (m_biases m) (m_vars m) -> Forall FSg (m_biases m) ->
     Forall (fun o : @out T BS => o_err o = false) (run O fixed efix m evs).
   Proof.
     induction evs as [|ev r IH]; intros m Hn H HF; [constructor|].
-    assert (Hn' : no_script r) by (intros id on Hin; apply (Hn id on); right; exact Hin).
-    cbn [run]. destruct ev as [xs|xs|id on]; cbn [mstep].
+    assert (Hn' : no_script r).
+    { intros id on. destruct (Hn id on) as [N1 N2]. split; intros Hin; [apply N1 | apply N2]; right; exact Hin. }
+    cbn [run]. destruct ev as [xs|xs|id on|id on]; cbn [mstep].
     - unfold do_calc.
       destruct (calc_noerr O fixed efix (if m_first m then m_it m else (m_it m + 1)%Z) (m_vars m) (m_biases m) xs H HF) as (E & V & F).
       destruct (calc O fixed efix (if m_first m then m_it m else (m_it m + 1)%Z) (m_vars m) (m_biases m) xs) as [[[vs bs] e] en].
@@ -2570,7 +2705,8 @@ Section NoError.
       destruct (calc_noerr O fixed efix (m_it m) (m_vars m) (m_biases m) xs H HF) as (E & V & F).
       destruct (calc O fixed efix (m_it m) (m_vars m) (m_biases m) xs) as [[[vs bs] e] en].
       cbn [fst snd] in *. subst e. cbn [app]. constructor; [reflexivity|]. apply IH; assumption.
-    - exfalso. apply (Hn id on). left. reflexivity.
+    - exfalso. apply (proj1 (Hn id on)). left. reflexivity.
+    - exfalso. apply (proj2 (Hn id on)). left. reflexivity.
   Qed.
 
   Theorem run_cfg_noerr it0 tsfs (cfgs : list (@bias_cfg T BS)) evs :
